@@ -8,9 +8,6 @@ import time
 from vlib.common import Outcome, Violation
 from vlib import renv
 
-T = 2
-
-
 def cells(tier):
     out = []
     for kind in ("sync", "gthread", "gevent", "eventlet"):
@@ -20,6 +17,8 @@ def cells(tier):
             out.append({"engine": "R", "what": "hang", "kind": kind, "mode": mode})
         for load in ("idle", "half-timeout-requests", "backlog"):
             out.append({"engine": "R", "what": "healthy", "kind": kind, "load": load})
+    # a request of 0.85 x timeout that starts shortly after the previous heartbeat (sync: one heartbeat per accepted connection)
+    out.append({"engine": "R", "what": "healthy", "kind": "sync", "load": "late-long-request", "timeout": 8})
     return out
 
 
@@ -29,6 +28,7 @@ def run_case(case):
     conf = []
     if case.get("mode") == "ignore-abrt":
         conf = ["import signal", "def post_worker_init(worker):", "    signal.signal(signal.SIGABRT, signal.SIG_IGN)"]
+    T = case.get("timeout", 2)
     srv = renv.Server(kind=kind, workers=2 if case["what"] == "hang" else 1, bind="tcp", graceful=2, timeout=T,
                       threads=2 if kind == "gthread" else None, conf_lines=conf, keepalive=1)
     vio = []
@@ -110,7 +110,12 @@ def run_case(case):
 
         threads = []
         t0 = time.time()
-        if load == "half-timeout-requests":
+        if load == "late-long-request":
+            time.sleep(T / 2.0 + 0.3)                 # let the idle loop's own heartbeat pass
+            one("/pid")                               # heartbeat
+            time.sleep(T / 4.0 - 0.25)                # less than a quarter of the timeout later ...
+            one("/slow/%.1f" % (0.86 * T))            # ... a healthy request shorter than the timeout
+        elif load == "half-timeout-requests":
             while time.time() - t0 < 3 * T:
                 one("/slow/%.1f" % (T / 2.0))
         elif load == "backlog":
